@@ -39,13 +39,13 @@ CHECKS["C09"] = dict(parts=[part("will-protocol", "gw", "TestC09", 4000, 300_000
 _GW_NOTE = "Real gateway session (unmodified handler1.run through the verif-tagged hook) on in-memory links inside a testing/synctest bubble (virtual time); the scripted client and broker speak through the reference codecs snref/mqttref, which are trusted. Built with go1.26.8 (needed for synctest)."
 META.update({
     "C07": dict(
-        text="Exploration: thousands of generated pre-admission packet sequences (every packet type, will/auth/sleep variants, auth on/off, broker accept/refuse/silent) are run against the real session; a monitor over the complete trace checks that CONNACK(accepted) is preceded by a broker acceptance in this session, that nothing but CONNECT/exempt QoS -1 PUBLISH/DISCONNECT reaches the broker before admission, and that an illegal packet ends the session within one poll interval with nothing forwarded afterwards.",
+        text="Exploration: thousands of generated pre-admission packet sequences (every packet type, will/auth/sleep variants, auth on/off, broker accept/refuse/silent) are run against the real session; a monitor over the complete trace checks that CONNACK(accepted) is preceded by a broker acceptance in this session, that nothing but CONNECT/exempt QoS -1 PUBLISH/DISCONNECT reaches the broker before admission, and that an illegal packet ends the session within one poll interval with nothing forwarded afterwards. Broker CONNACK codes are drawn from 0, the five defined refusals and reserved values (6, 0x10, 0x7f, 0x80..0x9f, 0xfd..0xff): accepted is code 0 and nothing else.",
         note=_GW_NOTE, technique="stateful PBT (generated packet sequences) with a trace monitor as oracle; virtual time"),
     "C08": dict(
         text="Exploration: generated connect exchanges with AUTH/WILLTOPIC/WILLMSG in any order and multiplicity and hostile AUTH payloads, auth on/off, all gateway-credential configurations; the monitor compares the credentials of every MQTT CONNECT on the broker stream with the AUTH of the current exchange (auth on) or with the configured credentials (auth off) and checks the unknown-method refusal.",
         note=_GW_NOTE, technique="stateful PBT with a credential monitor over the broker byte stream (independent MQTT parser)"),
     "C09": dict(
-        text="Exploration: generated connect exchanges (will topics/messages/flags, keep-alive values incl. 0, broker codes 0-5 and silence, duplicated and out-of-order WILL*/AUTH packets); the monitor checks the order WILLTOPICREQ -> WILLMSGREQ -> MQTT CONNECT, the will carried by the CONNECT, at most one CONNECT per exchange and the CONNACK mapping.",
+        text="Exploration: generated connect exchanges (will topics/messages/flags, keep-alive values incl. 0, broker codes 0-5 and silence, duplicated and out-of-order WILL*/AUTH packets); the monitor checks the order WILLTOPICREQ -> WILLMSGREQ -> MQTT CONNECT, the will carried by the CONNECT, at most one CONNECT per exchange and the CONNACK mapping. Broker refusals include reserved CONNACK codes (6..0xff).",
         note=_GW_NOTE, technique="stateful PBT with a protocol-order monitor (reference model of the documented exchange)"),
     "C10": dict(
         text="Exploration: every prefix of every connect-exchange variant (enumerated exhaustively, with and without a superseding CONNECT) plus generated gaps around the 100 ms poll interval; the oracle is a bound on the virtual clock: the session has returned and closed the broker connection by last CONNECT + 5 s + 100 ms.",
@@ -58,7 +58,7 @@ CHECKS["C03"] = dict(parts=[part("control-packets-one-to-one", "gw", "TestC03", 
 CHECKS["C04"] = dict(parts=[part("topic-ids-unique", "gw", "TestC04", 2000, 50_000)])
 META.update({
     "C01": dict(
-        text="Exploration: generated session histories (registrations, subscriptions of every form, broker grants/refusals) interleaved with client PUBLISH packets over all flag combinations, topic-ID types 0-3, known/unknown/shadowed IDs and boundary payload sizes; after every PUBLISH the broker byte stream is parsed by the independent MQTT parser and compared with what the client's topic ID denotes at that moment according to a model rebuilt from the trace (exactly one unchanged PUBLISH, or none when the ID denotes nothing).",
+        text="Exploration: generated session histories (registrations, subscriptions of every form, broker grants/refusals) interleaved with client PUBLISH packets over all flag combinations, topic-ID types 0-3, known/unknown/shadowed IDs and boundary payload sizes; after every PUBLISH the broker byte stream is parsed by the independent MQTT parser and compared with what the client's topic ID denotes at that moment according to a model rebuilt from the trace (exactly one unchanged PUBLISH, or none when the ID denotes nothing). Histories include broker PUBLISHes on plain names whose gateway REGISTER the scripted client accepts, refuses (return codes 1-3) or ignores: an ID from a refused REGISTER denotes nothing.",
         note=_GW_NOTE, technique="stateful PBT against a topic-knowledge reference model; differential parse of the broker stream"),
     "C02": dict(
         text="Exploration: generated histories with broker PUBLISH packets on short, predefined (own, '*'-only, shadowed), registered and brand-new names (also two at the same instant, and at the same instant as the client's own REGISTER of that name); the scripted client resolves every received PUBLISH using only what it accepted itself and the shared predefined configuration (reference lookup); name, payload, QoS and retain must match the broker's.",
@@ -67,7 +67,7 @@ META.update({
         text="Exploration: generated SUBSCRIBE/UNSUBSCRIBE/PUBREL/PINGREQ/DISCONNECT traffic and broker acknowledgements with return codes drawn independently of the requests; per step exactly one translated packet with the same message ID, resolved filter, requested QoS, acceptance iff code <= 2, granted QoS and the expected topic ID.",
         note=_GW_NOTE, technique="stateful PBT with a one-to-one translation model"),
     "C04": dict(
-        text="Exploration: registration histories that run 2-3x past exhaustion of a topic-ID space scaled down to 1..N (N=2..12) with predefined IDs inside the range; a history invariant over all REGACK/SUBACK/REGISTER IDs: in range, never a visible predefined ID, id->name is a function that never changes, also after refusals. The thorough tier adds one run over the real 65534-ID range.",
+        text="Exploration: registration histories that run 2-3x past exhaustion of a topic-ID space scaled down to 1..N (N=2..12) with predefined IDs inside the range; a history invariant over all REGACK/SUBACK/REGISTER IDs: in range, never a visible predefined ID, id->name is a function that never changes, also after refusals. The thorough tier adds one run over the real 65534-ID range. A third of the cases use the real range 1..0xFFFE with all but its top 2-12 IDs skipped beforehand (hook SkipTopicIDs), predefined IDs up to 0xFFFE inside, so that the real upper bound and wrap-around are exercised in every run.",
         note=_GW_NOTE + " The ID range is scaled through a verif-tagged hook that replaces only the upper bound of the session's own ID sequence.", technique="model-based stateful PBT with a history invariant; scaled-down ID space"),
 })
 CHECKS["C13"] = dict(parts=[part("clean-termination", "gw", "TestC13", 3000, 150_000),
@@ -78,11 +78,11 @@ CHECKS["C23"] = dict(parts=[part("gateway-datagrams-wellformed", "gw", "TestC23G
 CHECKS["C24"] = dict(parts=[part("mqtt-valid", "gw", "TestC24", 4000, 250_000)])
 META.update({
     "C13": dict(
-        text="Exploration: generated session prefixes (fresh, mid-connect, active with pending exchanges, asleep with/without pinger, awake, reconnected) crossed with every termination cause at drawn offsets around the poll interval; oracle: run returns within 100 ms + 1 ms of the cause on the virtual clock, the broker connection is closed, the client gets the expected number of DISCONNECTs, and a goroutine census right after the end finds no frame of the code under test. A second part runs sessions against a refusing broker address on real loopback sockets (dial failure).",
+        text="Exploration: generated session prefixes (fresh, mid-connect, active with pending exchanges, asleep with/without pinger, awake, reconnected) crossed with every termination cause at drawn offsets around the poll interval; oracle: run returns within 100 ms + 1 ms of the cause on the virtual clock, the broker connection is closed, the client gets the expected number of DISCONNECTs, and a goroutine census right after the end finds no frame of the code under test. A second part runs sessions against a refusing broker address on real loopback sockets (dial failure). Prefixes include a broker that has stopped reading with a write to it pending (in-memory link with a write stall honouring write deadlines), sleep durations with a zero low or high byte, a client announcing a new sleep duration while asleep, and a client which is unreachable when the cause arrives (every write to it fails).",
         note=_GW_NOTE + " Liveness is decided up to the observation window (400 ms of virtual time after the cause); the dial-failure part uses real time and treats its own timeouts as inconclusive.",
         technique="stateful PBT (prefix x termination cause) on a virtual clock + goroutine census; fault injection (broker unreachable) on loopback"),
     "C14": dict(
-        text="Exploration: the C13 generator; the monitor requires an MQTT DISCONNECT on the broker stream iff the client sent a plain DISCONNECT, after it, with nothing but EOF following.",
+        text="Exploration: the C13 generator; the monitor requires an MQTT DISCONNECT on the broker stream iff the client sent a plain DISCONNECT, after it, with nothing but EOF following. Additionally, anywhere in the history (also before the cause) an MQTT DISCONNECT without a preceding plain client DISCONNECT is a violation; prefixes include re-announced sleeps and sleep durations with a zero low or high byte.",
         note=_GW_NOTE, technique="stateful PBT with an iff-monitor over the broker byte stream"),
     "C23": dict(
         text="Exploration: generated histories biased to rarely taken send paths (zero keep-alive, awake CONNECT, refusals, exhaustion replies, wake-up flush, retransmissions, shutdown, broker payloads up to 70000 octets); every datagram the gateway sent is decoded strictly by the reference decoder and checked for direction, length field and size <= 8192.",
@@ -98,14 +98,14 @@ CHECKS["C12"] = dict(parts=[part("broker-keepalive-kept", "gw", "TestC12", 2000,
 CHECKS["C34"] = dict(parts=[part("vanished-clients-reaped", "gw", "TestC34", 2000, 100_000)])
 META.update({
     "C11": dict(
-        text="Exploration: generated sleep cycles (1-4 cycles x 1-3 wake-ups) with uniquely tagged broker publishes at drawn offsets around RetryDelay, including publishes injected at the same instant as the PINGREQ and between PINGRESP and the next wake-up; a client-state model per the project's specification interpretation judges silence while asleep, exactly-once in-order delivery in the wake-up flush followed by PINGRESP, and completeness once the client is active again.",
+        text="Exploration: generated sleep cycles (1-4 cycles x 1-3 wake-ups) with uniquely tagged broker publishes at drawn offsets around RetryDelay, including publishes injected at the same instant as the PINGREQ and between PINGRESP and the next wake-up; a client-state model per the project's specification interpretation judges silence while asleep, exactly-once in-order delivery in the wake-up flush followed by PINGRESP, and completeness once the client is active again. Racing variants include bursts of 2-8 publishes with the PINGREQ injected somewhere inside the burst; the order among the broker's messages is checked strictly (only the oldest owed message may be delivered), whichever flush a racing message lands in.",
         note=_GW_NOTE + " Same-instant (racing) publishes run without a settling barrier so both receive loops really run concurrently; which flush they land in is not constrained.",
         technique="stateful PBT with a sleep-state reference model and tagged messages; virtual time; same-instant injection for races"),
     "C12": dict(
         text="Exploration: generated timed histories over 6-20 keep-alive periods in which the client meets its own obligations (activity within K, wake-ups within D for D<K, =K, >K, >>K, re-announced sleeps, returns to active); the oracle measures, on the virtual clock, every gap between consecutive writes to the broker connection against 1.5 x K.",
         note=_GW_NOTE, technique="PBT over obligation-meeting timed histories (constructed, not filtered); oracle = max-gap over virtual timestamps"),
     "C34": dict(
-        text="Exploration: generated session prefixes after which the client is silent forever, against a broker that enforces the MQTT keep-alive and the missing-CONNECT timeout on the virtual clock; the oracle bounds the time from the client's last packet to the end of the session per state (connecting, active, asleep, woken, reconnected).",
+        text="Exploration: generated session prefixes after which the client is silent forever, against a broker that enforces the MQTT keep-alive and the missing-CONNECT timeout on the virtual clock; the oracle bounds the time from the client's last packet to the end of the session per state (connecting, active, asleep, woken, reconnected). In a third of the cases the vanished client is also unreachable (every write to it fails).",
         note=_GW_NOTE + " 'Never' is observed as 'not within the bound plus 3 K + 2 s'.", technique="PBT with a time-enforcing model broker on a virtual clock; bounded-liveness oracle"),
 })
 CHECKS["C06"] = dict(parts=[part("gateway-exchanges-independent", "gw", "TestC06GW", 3000, 200_000),
@@ -125,7 +125,7 @@ META.update({
         note=_GW_NOTE + " The ListenAndServe part uses real sockets and real time: a difference counts only if it shows in two executions (the second one paced), set-up failures are inconclusive, order within a direction is not compared, sleeping is left to the in-memory part. Scripts are constructed so that a lone session is deterministic (no name with two topic IDs, unique predefined names), otherwise map iteration order would differ between runs; no virtual time passes inside a case.",
         technique="metamorphic PBT: alone-vs-interleaved trace equality (in memory on virtual time, and through the real ListenAndServe on loopback sockets)"),
     "C25": dict(
-        text="Exploration: three stateful fuzzers producing only decodable packets -- hostile MQTT-SN client against a gateway session, hostile broker against a gateway session, hostile gateway against the client library with API calls in flight -- with retry delays down to 1 ms, time advances and same-instant injections; oracle: the test process survives every case (session and client goroutines have no recover, so a panic kills it; the driver attributes the death to the case written to disk beforehand and minimises it by delta debugging).",
+        text="Exploration: three stateful fuzzers producing only decodable packets -- hostile MQTT-SN client against a gateway session, hostile broker against a gateway session, hostile gateway against the client library with API calls in flight -- with retry delays down to 1 ms, time advances and same-instant injections; oracle: the test process survives every case (session and client goroutines have no recover, so a panic kills it; the driver attributes the death to the case written to disk beforehand and minimises it by delta debugging). The hostile client also repeats one of its last three datagrams (its automatic acknowledgements included); the hostile gateway also sends fragments of QoS 2 deliveries sharing one message ID (PUBLISH copies with drawn DUP flags, repeated PUBRELs) and duplicates of its earlier packets.",
         note=_GW_NOTE + " Data-race reports are not C25 violations (no -race build here).",
         technique="stateful fuzzing (rapid) with process-death detection and ddmin minimisation"),
 })
@@ -135,19 +135,19 @@ CHECKS["C28"] = dict(parts=[part("calls-return", "cl", "TestC28", 3000, 200_000)
 _CL_NOTE = "Real client library (unmodified, its dial replaced through the verif-tagged hook) on an in-memory datagram link inside a testing/synctest bubble; the scripted gateway speaks through the reference codec snref, which is trusted. Blocking API calls run on their own goroutines. Built with go1.26.8."
 META.update({
     "C17": dict(
-        text="Exploration: generated per-transmission fate plans (lost / processed but acknowledgement lost / acknowledged / acknowledged twice) for every protocol step of Register, Subscribe, Unsubscribe and Publish at QoS 0-3 over all topic forms, RetryCount 0-4, plus QoS 2 deliveries whose PUBREL is repeated after completion; the oracle derives from the plan whether each call must return nil or an error, and checks DUP and message IDs of every retransmission and a PUBCOMP for every PUBREL.",
+        text="Exploration: generated per-transmission fate plans (lost / processed but acknowledgement lost / acknowledged / acknowledged twice) for every protocol step of Register, Subscribe, Unsubscribe and Publish at QoS 0-3 over all topic forms, RetryCount 0-4, plus QoS 2 deliveries whose PUBREL is repeated after completion; the oracle derives from the plan whether each call must return nil or an error, and checks DUP and message IDs of every retransmission and a PUBCOMP for every PUBREL. A quarter of the calls overlap with a complete QoS 2 delivery from the gateway which carries the call's own message ID.",
         note=_CL_NOTE, technique="fault-plan PBT (loss/duplication per transmission) with a plan-derived oracle; virtual time"),
     "C27": dict(
-        text="Exploration: generated subscribe/unsubscribe histories over filters with empty levels, '+', trailing and parent-level '#', and deliveries at QoS 0/1/2 via registered, short and predefined IDs against the real client; every (filter, topic) pair of up to 2 levels is enumerated with a single subscription; oracle: a reference MQTT 3.1.1 topic matcher decides which callbacks may run (exactly one matching, none otherwise, none after Unsubscribe, QoS 2 at PUBREL).",
+        text="Exploration: generated subscribe/unsubscribe histories over filters with empty levels, '+', trailing and parent-level '#', and deliveries at QoS 0/1/2 via registered, short and predefined IDs against the real client; every (filter, topic) pair of up to 2 levels is enumerated with a single subscription; oracle: a reference MQTT 3.1.1 topic matcher decides which callbacks may run (exactly one matching, none otherwise, none after Unsubscribe, QoS 2 at PUBREL). In half of the QoS 2 deliveries 1-2 Subscribe/Unsubscribe calls complete between PUBREC and PUBREL; the subscriptions current at the PUBREL decide.",
         note=_CL_NOTE, technique="model-based PBT against a reference matcher; exhaustive for <= 2 levels"),
     "C28": dict(
-        text="Exploration: every API call (alone or two at the same instant) against an adversarial scripted gateway whose behaviour per datagram is drawn (silence at any step, wrong IDs/types, unsolicited packets, DISCONNECT, undecodable datagrams, duplicates), with and without keep-alive, with time advances around keep-alive ticks; oracle: each call returns within its bound on the virtual clock, and after Close or an unsolicited gateway DISCONNECT a goroutine census finds no client goroutine; goroutines still blocked at the end of a case are reported by the bubble itself.",
+        text="Exploration: every API call (alone or two at the same instant) against an adversarial scripted gateway whose behaviour per datagram is drawn (silence at any step, wrong IDs/types, unsolicited packets, DISCONNECT, undecodable datagrams, duplicates), with and without keep-alive, with time advances around keep-alive ticks; oracle: each call returns within its bound on the virtual clock, and after Close or an unsolicited gateway DISCONNECT a goroutine census finds no client goroutine; goroutines still blocked at the end of a case are reported by the bubble itself. Gateway behaviours include a PUBREC repeated every 300 ms for 12 s with the PUBCOMP never sent.",
         note=_CL_NOTE + " Hangs are decided up to 10x the bound.", technique="stateful PBT with an adversarial peer; bounded-liveness oracle on a virtual clock; goroutine census"),
 })
 CHECKS["C33"] = dict(parts=[part("client-keepalive", "cl", "TestC33", 3000, 200_000)])
 META.update({
     "C33": dict(
-        text="Exploration: real client with KeepAlive 2-30 s against a scripted gateway that drops selected ping transmissions within the retry budget; API calls (Sleep, Disconnect, Publish, Subscribe, Register, reconnect) at times drawn relative to the keep-alive period (exact tick, +-1 ns, +-1 ms, mid-period); a client-state model replayed over the timeline checks: consecutive keep-alive PINGREQs at most KeepAlive apart while active, none (original or retransmitted) while asleep or disconnected, and every concurrent call returns nil.",
+        text="Exploration: real client with KeepAlive 2-30 s against a scripted gateway that drops selected ping transmissions within the retry budget; API calls (Sleep, Disconnect, Publish, Subscribe, Register, reconnect) at times drawn relative to the keep-alive period (exact tick, +-1 ns, +-1 ms, mid-period); a client-state model replayed over the timeline checks: consecutive keep-alive PINGREQs at most KeepAlive apart while active, none (original or retransmitted) while asleep or disconnected, and every concurrent call returns nil. The application's own Ping() is among the calls (its PINGREQs are dropped like the keep-alive ones).",
         note=_CL_NOTE + " Events at exactly the instant of a state change are not ordered by the property and are tolerated.", technique="timed stateful PBT on a virtual clock with a client-state reference model"),
 })
 CHECKS["C31"] = dict(parts=[part("client-auth-after-connect", "cl", "TestC31Client", 2000, 100_000),
@@ -188,7 +188,7 @@ META.update({
 CHECKS["C26"] = dict(parts=[part("interop", "e2e", "TestC26", 2000, 150_000)])
 META.update({
     "C26": dict(
-        text="Exploration: generated API-call scripts (3-25 steps: connect with/without will and auth, register, subscribe of every form, publish at QoS -1..2 on every topic form, unsubscribe, ping, repeated sleep cycles with broker publishes injected during the sleep, reconnect, disconnect) run with the real client against a real gateway session and a conforming broker model over a lossless in-memory link; oracle: every call returns nil, subscriptions and published messages are at the broker exactly as requested, and every injected broker message that matches a live subscription (single messages and bursts, also on not-yet-registered topics under a wildcard) runs a handler exactly once with the broker's topic.",
+        text="Exploration: generated API-call scripts (3-25 steps: connect with/without will and auth, register, subscribe of every form, publish at QoS -1..2 on every topic form, unsubscribe, ping, repeated sleep cycles with broker publishes injected during the sleep, reconnect, disconnect) run with the real client against a real gateway session and a conforming broker model over a lossless in-memory link; oracle: every call returns nil, subscriptions and published messages are at the broker exactly as requested, and every injected broker message that matches a live subscription (single messages and bursts, also on not-yet-registered topics under a wildcard) runs a handler exactly once with the broker's topic. A fifth of the subscriptions to filters not subscribed yet are refused by the broker (SUBACK 0x80): the call must report it and nothing else may change.",
         note="Real client and real gateway session wired together in one testing/synctest bubble (verif-tagged hooks for dial and session start); the broker model (harness/e2e) and the reference matcher are trusted. Sleeps stay below RetryDelay so the C11 known finding does not interfere.",
         technique="model-based end-to-end PBT (API-call sequences) against a broker reference model; virtual time"),
 })
